@@ -49,6 +49,11 @@ CHECKS = {
     technique="TLA+ history machine of the transformers (fit / transform / fit_transform, user-fixed vs learned parameters) model-checked by TLC over all histories; recorded call histories on real estimators validated by TLC with a memo (fitted state, diagram) -> output digest",
     text="TLC checks RefitForgets, FitTransformIsFitThenTransform, TransformUsesLastFit and the action property TransformKeepsState for all histories of length <=4 (thorough 6) over 3 data sets and every subset of user-fixed start/stop, and refutes the pre-repair keep-first fit in two steps. Seeded interleavings of 3..10 calls over 2..4 data sets (collections of 1..4 diagrams, user-fixed bounds incl. 0, flatten or not, three tick sizes) run on real PersistenceLandscaper and PersistenceImager objects; after every call the public attributes and a digest of every returned array are recorded and TLC walks the history: learned state = F(last fit, user-fixed), transform leaves the state unchanged, equal (state, diagram) give equal output whatever the call style, collections are mapped element by element in order.",
     note="Outputs enter as 31-bit digests of the exact bytes (a memo clash is a bitwise difference). User-fixed means given to the constructor. The genuine defect found (landscaper keeps the first grid) is repaired in /repo and recorded as fixed."),
+ "C09": dict(
+    cat="model_checking", ref="DESIGN.md 5/C09",
+    technique="TLA+ environment machine for landscape arithmetic (slope merge as coded, exact rationals) model-checked by TLC against pointwise linear combination with OperandsUnchanged as an action property; recorded operation histories on real objects validated by TLC as functions",
+    text="TLC checks PointwiseInv, WellFormed and OperandsUnchanged for every sequence of <=2 (thorough 3) add/sub/neg/scalar operations over a pool of base landscapes with results fed back. Seeded programs of 3..9 operations over exact and grid landscapes (from diagrams or arbitrary zero-ended critical points / values; coincident abscissae, sign changes, unequal depth counts; scalars incl. negatives and fractions; snap_pl, lc_approx, average_approx; mismatched degrees/grids that must raise) run on the real classes; after every operation every live object is re-read and TLC requires all earlier objects unchanged and each result equal to the stated combination of its operands at every depth and at every tick of the union of breakpoints (re-sampling: at the new grid nodes).",
+    note="Functions zero at both ends with integer abscissae and dyadic slopes/scalars so results decode exactly (denominator <= 64, otherwise the program is skipped and counted). Operand identity is a 31-bit digest of the full content."),
 }
 
 NOT_APPLICABLE_REASON = "check under construction in this round; see DESIGN.md section 5"
